@@ -238,7 +238,11 @@ impl<
                 self.seek_from_end(back.try_into().map_err(|_| Error::InvalidOffset)?)?
             }
             SeekFrom::Current(offset) => {
-                self.seek_from_current(offset.try_into().map_err(|_| Error::InvalidOffset)?)?
+                // The distance need not fit the `i32` of `seek_from_current`
+                // for the target to lie inside a file of more than 2 GiB.
+                let current = i64::from(self.volume_mgr.file_offset(self.raw_file)?);
+                let target = current.checked_add(offset).ok_or(Error::InvalidOffset)?;
+                self.seek_from_start(target.try_into().map_err(|_| Error::InvalidOffset)?)?
             }
         }
         Ok(self.offset().into())
